@@ -65,7 +65,7 @@ pub fn c15_case(combo: u64, rng: &mut Rng) -> Case {
     p.faults = rng.chance(1, 2);
     p.p_monitors = 50;
     let knobs = crate::gen::gen_knobs(rng, &p);
-    Case { cap, ctor: Flavour::Async, class, mask: rng.next(), knobs, tasks, main_keeps_roots: false, lock_harness: false, epilogue: vec![] }
+    Case { cap, ctor: Flavour::Async, class, mask: rng.next(), knobs, tasks, main_keeps_roots: false, lock_harness: false, epilogue: vec![], balanced: false }
 }
 
 pub const C14_COMBOS: u64 = 10 * 40;
@@ -112,5 +112,5 @@ pub fn c14_case(combo: u64, rng: &mut Rng) -> Case {
     knobs.freeze = Some((1, j, 3000));
     knobs.monitors = false;
     let class = *rng.pick(&[Class::U32, Class::SmallDrop, Class::Big40Drop, Class::Usize]);
-    Case { cap, ctor: Flavour::Sync, class, mask: rng.next(), knobs, tasks, main_keeps_roots: false, lock_harness: false, epilogue: vec![] }
+    Case { cap, ctor: Flavour::Sync, class, mask: rng.next(), knobs, tasks, main_keeps_roots: false, lock_harness: false, epilogue: vec![], balanced: false }
 }
